@@ -1184,3 +1184,60 @@ add("affineMatrixStructure", "Rigid", ["C11"], _CORE, "const", [],
 add("translateAddsWorld", "Rigid", ["C11"], _CORE, "const", [],
     pattern(lambda t: _has(ast.unparse(func(t, "Molecules.translate")),
                            "coords = self._pos + np.asarray(shifts, dtype=np.float32)")))
+
+
+# ==========================================================================================
+# C03  row i <-> molecule i
+# ==========================================================================================
+_BATCH = "acryo/loader/_batch.py"
+_LBASE = "acryo/loader/_base.py"
+_LGROUP = "acryo/loader/_group.py"
+
+
+def _batch_scatter(t):
+    return _has(ast.unparse(func(t, "BatchLoader.construct_loading_tasks")),
+                "image_ids = self.molecules.features[IMAGE_ID_LABEL].to_numpy()",
+                "tasks: list[da.Array | None] = [None] * len(image_ids)",
+                "for key, group in self.molecules.groupby(IMAGE_ID_LABEL):",
+                "loader = SubtomogramLoader(self._images[key], group,",
+                "indices = np.flatnonzero(image_ids == key)",
+                "for i, task in zip(indices, sub_tasks):", "tasks[i] = task",
+                "return DaskArrayList(tasks)")
+
+
+add("batchTasksScatteredToMoleculeOrder", "Loader", ["C03", "C10"], _BATCH, "const", [], pattern(_batch_scatter))
+add("groupByKeepsOrder", "Loader", ["C03", "C12"], _CORE, "const", [],
+    pattern(lambda t: _has(ast.unparse(func(t, "Molecules.group_by")), "maintain_order=True")))
+add("mappingTasksZipRows", "Loader", ["C03"], _LBASE, "const", [],
+    pattern(lambda t: (_has(ast.unparse(func(t, "LoaderBase.iter_mapping_tasks")),
+                            "dask_array = self.construct_loading_tasks(output_shape=output_shape)",
+                            "for ar, kw in zip(dask_array, _misc.dict_iterrows(var_kwarg))",
+                            "(delayed_f(ar, *const_args, **const_kwargs) for ar in dask_array)")
+                       and _has(ast.unparse(func(t, "LoaderBase._post_align")),
+                                "for i, result in enumerate(results):", "local_shifts[i] = loc_shift * self.scale")
+                       and _has(ast.unparse(func(t, "LoaderBase._post_align_multi_templates")),
+                                "for i, result in enumerate(results):"))))
+add("dictIterrowsRowwise", "Loader", ["C03"], "acryo/loader/_misc.py", "const", [],
+    pattern(lambda t: _has(ast.unparse(func(t, "dict_iterrows")), "value_iters = [iter(v) for v in d.values()]",
+                           "for k, viter in zip(keys, value_iters):", "dict_out[k] = next(viter)", "yield dict_out")))
+add("derivedLoadersDelegate", "Loader", ["C03"], _LBASE, "const", [],
+    pattern(lambda t: (_has(ast.unparse(func(t, "LoaderBase.head")), "return self.replace(molecules=self.molecules.head(n))")
+                       and _has(ast.unparse(func(t, "LoaderBase.tail")), "return self.replace(molecules=self.molecules.tail(n))")
+                       and _has(ast.unparse(func(t, "LoaderBase.sample")), "return self.replace(molecules=self.molecules.sample(n, seed))")
+                       and _has(ast.unparse(func(t, "LoaderBase.filter")), "return self.replace(molecules=self.molecules.filter(predicate))"))))
+add("batchReplacePrunesImages", "Loader", ["C03"], _BATCH, "const", [],
+    pattern(lambda t: _has(ast.unparse(func(t, "BatchLoader.replace")), "out._images = self._images.copy()",
+                           "_id_exists = set(molecules.features[IMAGE_ID_LABEL].unique())",
+                           "for k in list(out._images.keys()):", "if k not in _id_exists:", "out._images.pop(k)")))
+add("addTomogramFreshId", "Loader", ["C03"], _BATCH, "const", [],
+    pattern(lambda t: _has(ast.unparse(func(t, "BatchLoader.add_tomogram")), "image_id = len(self._images)",
+                           "while image_id in self._images:", "image_id += 1", "molecules = molecules.copy()",
+                           "_molecules_new = self._molecules.concat_with(molecules)")))
+add("groupDerivedAreLists", "Loader", ["C03", "C09"], _LGROUP, "const", [],
+    pattern(lambda t: all(_has(ast.unparse(func(t, f"LoaderGroup.{n}")), f"return self.__class__([(key, loader.{c}) for key, loader in self])")
+                          for n, c in (("filter", "filter(predicate)"), ("head", "head(n)"), ("tail", "tail(n)"),
+                                       ("sample", "sample(n, seed)")))))
+add("groupIteratorPartitions", "Loader", ["C03"], _LGROUP, "const", [],
+    pattern(lambda t: _has(ast.unparse(func(t, "LoaderGroupByIterator.__iter__")),
+                           "for key, mole in loader.molecules.with_features(index).groupby(self._by):",
+                           "molecules=mole.drop_features(index_col_name)")))
